@@ -1,43 +1,80 @@
 #!/usr/bin/env python3
-"""try_refactor.py <verif-copy> <worktree> <Cxx> <rN>: confirm a harmless rewrite (suite passes, equiv.py passes) and run ALL quick checks against it"""
-import json, os, subprocess, sys, time
-vcopy, wt, prop, rn = sys.argv[1:5]
-out = "/tmp/ref/%s_out/%s" % (prop, rn)
+"""
+try_refactor.py <verif-dir> <scratch-worktree> <rewrite-id> [--all]
+
+Confirms a harmless rewrite kept in /verif/rewrites/<id>/ (patch applies to /repo's HEAD in a scratch
+worktree, the pinned suite passes, its equivalence program passes) and runs the quick checks against it
+with EG_REPO pointing at the scratch worktree (/repo itself is not touched).  Checks run: the rewrite's own
+property and every property anchored (properties.jsonl) in a file the patch touches; `--all` runs all twenty.
+<verif-dir> may be a COPY of /verif (so that several rewrites can be tried in parallel and the evidence files
+of /verif are not overwritten by runs against a scratch tree).  The result is written to
+/verif/rewrites/<id>/result.json.
+"""
+import json
+import os
+import re
+import subprocess
+import sys
+import time
+
+HOME = os.path.dirname(os.path.dirname(os.path.abspath(__file__)))
 PY = "/venv/bin/python"
+
+
 def sh(cmd, cwd=None, env=None, timeout=3000):
-    e = dict(os.environ); e.update(env or {})
-    p = subprocess.run(cmd, cwd=cwd, env=e, stdout=subprocess.PIPE, stderr=subprocess.STDOUT, shell=isinstance(cmd, str), timeout=timeout)
+    e = dict(os.environ)
+    e.update(env or {})
+    p = subprocess.run(cmd, cwd=cwd, env=e, stdout=subprocess.PIPE, stderr=subprocess.STDOUT, shell=isinstance(cmd, str),
+                       timeout=timeout, check=False)
     return p.returncode, p.stdout.decode(errors="replace")
-if not os.path.isdir(wt):
-    sh(["git", "-C", "/repo", "worktree", "add", "-q", "--detach", wt, "HEAD"])
-sh("git checkout -- . && git clean -fdq", cwd=wt)
-res = {"id": "%s-%s" % (prop, rn)}
-rc, o = sh(["git", "apply", os.path.join(out, "patch.diff")], cwd=wt)
-res["applies"] = rc == 0
-env = {"PYTHONPATH": wt, "EG_REPO": wt}
-rc, o = sh([PY, "-m", "pytest", "-q", "-p", "no:cacheprovider", "--timeout=900"], cwd=wt, env=env)
-tail = [l for l in o.strip().split("\n") if "passed" in l or "failed" in l][-1:]
-res["suite"] = tail[0] if tail else o[-200:]
-rc, o = sh([PY, os.path.join(out, "equiv.py")], cwd=wt, env=env)
-res["equiv_exit"] = rc
-checks = {}
-for i in range(1, 21):
-    c = "C%02d" % i
-    t = time.time()
-    rc, o = sh(["./check", c, "--tier", "quick"], cwd=vcopy, env=env)
-    lines = o.split("\n")
-    v = [l for l in lines if l.startswith("VIOLATION")]
-    det = ""
-    for k, l in enumerate(lines):
-        if l.startswith("VIOLATION") and k + 1 < len(lines):
-            det = lines[k + 1].strip()[:300]; break
-    checks[c] = {"exit": rc, "viol": v[:1], "detail": det, "wall": round(time.time() - t, 1), "tail": "" if rc == 0 else o[-400:]}
-res["checks"] = checks
-res["alarms"] = [c for c, r in checks.items() if r["exit"] != 0]
-sh("git checkout -- . && git clean -fdq", cwd=wt)
-# restore generated tables in the copy
-sh([PY, os.path.join(vcopy, "harness", "tables.py")], cwd=vcopy, env={"EG_REPO": "/repo"})
-json.dump(res, open(os.path.join(out, "result.json"), "w"), indent=1)
-print(res["id"], "applies", res["applies"], "|", res["suite"][:60], "| equiv", res["equiv_exit"], "| alarms", res["alarms"])
-for c in res["alarms"]:
-    print("   ", c, checks[c]["exit"], (checks[c]["viol"] or [""])[0][:120], "|", checks[c]["detail"][:200])
+
+
+def main():
+    vcopy, wt, rid = sys.argv[1:4]
+    everything = "--all" in sys.argv
+    out = os.path.join(HOME, "rewrites", rid)
+    prop = rid.split("-")[0]
+    patch = os.path.join(out, "patch.diff")
+    if not os.path.isdir(wt):
+        sh(["git", "-C", "/repo", "worktree", "add", "-q", "--detach", wt, "HEAD"])
+    sh("git checkout -q --detach $(git -C /repo rev-parse HEAD) && git checkout -- . && git clean -fdq", cwd=wt)
+    res = {"id": rid, "base_commit": sh(["git", "-C", "/repo", "rev-parse", "--short", "HEAD"])[1].strip()}
+    rc, _o = sh(["git", "apply", patch], cwd=wt)
+    res["applies"] = rc == 0
+    env = {"PYTHONPATH": wt, "EG_REPO": wt}
+    rc, o = sh([PY, "-m", "pytest", "-q", "-p", "no:cacheprovider", "--timeout=900"], cwd=wt, env=env)
+    tail = [l for l in o.strip().split("\n") if "passed" in l or "failed" in l][-1:]
+    res["suite"] = tail[0] if tail else o[-200:]
+    rc, o = sh([PY, os.path.join(out, "equiv.py")], cwd=wt, env=env)
+    res["equiv_exit"] = rc
+    touched = set(re.findall(r"^\+\+\+ b/(\S+)", open(patch).read(), re.M))
+    todo = []
+    for l in open(os.path.join(HOME, "properties.jsonl")):
+        d = json.loads(l)
+        files = set((d.get("anchors") or {}).get("files") or [])
+        if everything or d["id"] == prop or files & touched:
+            todo.append(d["id"])
+    checks = {}
+    for c in todo:
+        t = time.time()
+        rc, o = sh(["./check", c, "--tier", "quick"], cwd=vcopy, env=env)
+        lines = o.split("\n")
+        v = [l for l in lines if l.startswith("VIOLATION")]
+        det = ""
+        for k, l in enumerate(lines):
+            if l.startswith("VIOLATION") and k + 1 < len(lines):
+                det = lines[k + 1].strip()[:300]
+                break
+        checks[c] = {"exit": rc, "viol": v[:1], "detail": det, "wall": round(time.time() - t, 1)}
+    res["checks_run"] = todo
+    res["checks"] = checks
+    res["alarms"] = [c for c, r in checks.items() if r["exit"] != 0]
+    sh("git checkout -- . && git clean -fdq", cwd=wt)
+    json.dump(res, open(os.path.join(out, "result.json"), "w"), indent=1)
+    print(rid, "applies", res["applies"], "|", res["suite"][:50], "| equiv", res["equiv_exit"], "| checks", len(todo), "| alarms", res["alarms"])
+    for c in res["alarms"]:
+        print("   ", c, checks[c]["exit"], (checks[c]["viol"] or [""])[0][:120], "|", checks[c]["detail"][:200])
+
+
+if __name__ == "__main__":
+    main()
